@@ -784,6 +784,9 @@ func genSingle(c *Case, r *simrt.Rand, cfg genCfg) {
 				if op.S == "iter" || op.S == "storeIter" {
 					op.Flag = r.Chance(0.4) // the snapshot is closed right away, the iterator stays
 				}
+				if op.S == "child" {
+					op.Flag = r.Chance(0.3) // the handle is an iterator on the child snapshot
+				}
 				if g.kids {
 					op.K = []byte(pick(r, g.names))
 				}
